@@ -962,6 +962,9 @@ func execC18(c *hx.Case) (*hx.Result, error) {
 
 func (eng) Generate(mode, tier string, r *hx.Rand) []*hx.Case {
 	var cs []*hx.Case
+	// hx.NewRand(seed) and hx.NewRand(seed+1) produce the same stream shifted by one draw (the splitmix state is
+	// seed*gamma + c); re-seed from one mixed output so that consecutive seeds give unrelated case sets.
+	r = hx.NewRand(r.U64() ^ 0xC07C18)
 	switch mode {
 	case "c07":
 		n := 300
